@@ -849,6 +849,7 @@ var c07Directed = []struct {
 	{name: "over-scope-head-done-after-input-ends", text: `n >= 2.5 | over a => (sum(this)) | where this >= 1 | head 1`, input: c07InOverHead, decl: &c07Declared{Field: "ts"}, mode: prog.ModeSequence},
 	{name: "fork-leg-head-done-while-other-leg-has-eos", text: `ts > 1970-01-01T05:00:00Z | fork (=> pass => tail 8 | head 6) | search x | over a | where this == 0 | pass`, input: c07InForkHead, decl: &c07Declared{Field: "s", Desc: true}, mode: prog.ModeMultiset},
 	{name: "fork-leg-over-head-done-while-other-leg-has-eos", text: `fork (=> pass => over a with id => (yield {id,e:this}) | head 8) | m1:=sum(id), m2:=count() where has(id) and id >= 4 | sort m1 desc, m2 | sort -nulls first m2`, input: c07InForkOverHead, decl: &c07Declared{Field: "g"}, mode: prog.ModeSequence},
+	{name: "streaming-group-by-sorted-key-is-not-the-first-key", text: `m1:=count() by v,g`, input: `{g:0,v:0}{g:0,v:0}{g:0,v:0}{g:0,v:1}{g:0,v:1}{g:0,v:1}{g:0,v:0}{g:0,v:0}{g:0,v:0}{g:1,v:0}`, decl: &c07Declared{Field: "g"}, mode: prog.ModeMultiset},
 }
 
 func c07DirectedCase(c *rt.Ctx, o *rt.Obs, i int) {
